@@ -1989,7 +1989,6 @@ fn parsers(t: &[&str]) -> String {
         "line" | "rle" | "locbare" => 1,
         "attr" => 7,
         "lle" => 2,
-        "fde" => 5,
         _ => 0,
     };
     let bytes = hex(t[4 + np]);
